@@ -384,7 +384,6 @@ func writeValue(buf *bytes.Buffer, v value) {
 	case symstr:
 		buf.WriteString("<symbolic string>")
 
-
 	case chan value:
 		fmt.Fprintf(buf, "%v", v) // (an address)
 
